@@ -113,6 +113,7 @@ fn raw_inj() -> impl Strategy<Value = RawInj> {
         2 => (0u8..8, 0u8..6).prop_map(|(zone, label)| InjKind::VictimCname { zone, label }),
         2 => (0u8..8).prop_map(|zone| InjKind::VictimNsHostA { zone }),
         1 => Just(InjKind::RootNs),
+        2 => (0u8..8, 0u8..6).prop_map(|(zone, label)| InjKind::VictimNsec { zone, label }),
     ];
     (0u8..3, prop_oneof![4 => Just(0u8), 1 => Just(1u8), 1 => Just(2u8), 1 => Just(3u8)], kind)
         .prop_map(|(section, on, kind)| RawInj { section, on, kind })
